@@ -111,4 +111,17 @@ CLAIMS = {
                 'TtfUtil::CmapSubtable4Lookup/12Lookup/NextCodepoint is value-level and out of reach (a seeded off-by-one there is a recorded miss).',
         'technique': 'sibling cross-check of two implementations (call arguments, guards, selectors) over AST/CFG facts + dominance rules',
     },
+    'C03': {
+        'text': 'Decides the preservation step of the stream invariant for every mutator: appendSlot, INSERT, DELETE, PUT_COPY, TEMP_COPY and '
+                'reverseSlots are executed symbolically over an abstract heap of {next, prev, first, last} on every complete control path '
+                '(loops unrolled), assuming a well-formed pre-state; every link written must be matched by its back-link, null links must '
+                'be accompanied by the head/tail update, nothing may point at an off-stream or possibly-deleted slot.  Plus: who may write '
+                'the link fields, newSlot returns slots with null links, slot-count accounting (extendLength exactly once per '
+                'INSERT/DELETE), indices assigned on one traversal between the substitution and positioning runs and by nobody else, the '
+                'loader rejects INSERT/DELETE once indices exist, the pseudo real-glyph clamp on every path.  NOT decided: finiteness of '
+                'positions, glyph-id validity beyond the clamp (font data), reverseSlots beyond two loop iterations per loop.',
+        'note': 'Trusted: clang 14 CFG, tools/grfacts, rules/linksym.py (symbolic link heap, pre-state axioms), rules/dom.py, the tabled mutator '
+                'set with reasons.  Paths are complete up to two visits per block; deeper iterations are not explored.',
+        'technique': 'symbolic shape analysis (abstract link-heap execution per CFG path) + who-may-write + dominance/ordering rules',
+    },
 }
